@@ -181,7 +181,7 @@ def mk_factor(kind, D, R, vi, seed=None, tag=()):
 COND_KINDS = ["full", "diag", "identity", "identity_diag", "nncontrol"]
 
 
-CTORS = ["Sigma", "Lambda", "all", "b_none"]
+CTORS = ["Sigma", "Lambda", "SigmaLambda", "all", "b_none"]
 
 
 def _noise_kw(Sy, ctor):
@@ -190,6 +190,8 @@ def _noise_kw(Sy, ctor):
         return dict(Sigma=J(Sy))
     if ctor == "Lambda":
         return dict(Lambda=J(np.linalg.inv(Sy)))
+    if ctor == "SigmaLambda":
+        return dict(Sigma=J(Sy), Lambda=J(np.linalg.inv(Sy)))  # covariance and precision given, log-determinant left to the constructor
     if ctor == "all":
         return dict(Sigma=J(Sy), Lambda=J(np.linalg.inv(Sy)), ln_det_Sigma=J(np.linalg.slogdet(Sy)[1]))
     raise KeyError(ctor)
@@ -199,7 +201,7 @@ def mk_cond(kind, M, b, Sy, u_rows=None, ctor="Sigma"):
     """Linear conditional of the given kind.  Returns (obj, call_kwargs, (M,b,Sy) as
     effectively realised, per component).  identity kinds ignore M,b (M=I,b=0).
     nncontrol: R of the result = number of control rows.
-    ctor: which constructor arguments are used: 'Sigma' | 'Lambda' | 'all' (Sigma+Lambda+ln_det_Sigma) | 'b_none' (b omitted = 0)."""
+    ctor: which constructor arguments are used: 'Sigma' | 'Lambda' | 'SigmaLambda' | 'all' (Sigma+Lambda+ln_det_Sigma) | 'b_none' (b omitted = 0)."""
     R = len(Sy)
     if kind in ("full", "diag"):
         cls = conditional.ConditionalGaussianPDF if kind == "full" else conditional.ConditionalGaussianDiagPDF
@@ -216,12 +218,18 @@ def mk_cond(kind, M, b, Sy, u_rows=None, ctor="Sigma"):
         # control function: affine in u so that row r of u reproduces (M[r], b[r]).
         Ru, Dy, Dx = M.shape
         Du = 2
-        u = np.array([[1.0, 0.0], [0.0, 1.0], [1.0, 1.0]])[:Ru]
+        # control values that are NOT exactly representable in single precision, far from the origin and close together: the
+        # control function is then sensitive to the low bits of u (a silent float32 round trip of u shows up at ~1e-5)
+        u = np.array([[30.3, 0.7], [30.31, 0.7], [30.3, 0.71]])[:Ru]
         target = np.concatenate([M.reshape(Ru, -1), b], axis=1)  # [Ru, Dy*(Dx+1)]
         # W u_r + c = target_r : choose c = target_0 - W u_0 ... solve exactly for Ru<=3 via lstsq on [u,1]
         U1 = np.concatenate([u, np.ones((Ru, 1))], axis=1)
         if Ru <= 3:
-            coef = np.linalg.lstsq(U1, target, rcond=None)[0]
+            # the affine control function is pinned by three control values (the unused ones map to other O(1) targets), so
+            # that it has O(100) slopes whatever the number of rows actually used
+            u3 = np.array([[30.3, 0.7], [30.31, 0.7], [30.3, 0.71]])
+            t3 = np.concatenate([target] + [(target[0] * -0.5 + 1.0 + k)[None] for k in range(3 - Ru)], axis=0)
+            coef = np.linalg.solve(np.concatenate([u3, np.ones((3, 1))], axis=1), t3)
         else:
             raise ValueError("nncontrol builder supports <=3 control rows")
         coefJ = J(coef)
@@ -230,7 +238,7 @@ def mk_cond(kind, M, b, Sy, u_rows=None, ctor="Sigma"):
             return jnp.concatenate([uu, jnp.ones((uu.shape[0], 1))], axis=1) @ coefJ
 
         eff = U1 @ coef
-        assert np.allclose(eff, target, atol=1e-9)
+        assert np.allclose(eff, target, atol=1e-9), np.max(np.abs(eff - target))
         obj = conditional.NNControlGaussianConditional(Sigma=J(Sy[:1]), num_cond_dim=Dx, num_control_dim=Du, control_func=control_func)
         Syr = np.tile(Sy[:1], (Ru, 1, 1))
         return obj, {"u": J(u)}, (M, b, Syr)
@@ -388,6 +396,22 @@ def pdf_variants(kind, Sig, mu, which=("fresh", "Sigma+Lambda", "Sigma+Lambda+ln
                 p0 = mk_pdf(kind, Sig, mu)
                 return (p0.hadamard(f, update_full=True) if w == "hadamard_onerank" else p0.multiply(f, update_full=True)).get_density()
             out.append((w, b, np.array(omu_e), np.array(oSig_e)))
+        elif w.startswith("hadamard_linear_bcast") and R >= 2:
+            # ONE density (cached covariance) tilted by R linear factors through hadamard (broadcast 1 x R), covariance update
+            # requested, then get_density(); optionally followed by a second derivation (identity marginal / reversed slice)
+            hnu = np.array([al.int_vector(D, salt=j + 3) * 0.5 for j in range(R)])
+            hmu = np.array([mu[0] + Sig[0] @ hnu[j] for j in range(R)])
+            hSig = np.array([Sig[0] for j in range(R)])
+            then = w.split(">")[1] if ">" in w else None
+
+            def hb(hnu=hnu, then=then):
+                d = mk_pdf(kind, Sig[:1], mu[:1]).hadamard(factor.LinearFactor(nu=J(hnu), ln_beta=J(np.linspace(0.1, -0.4, R))), update_full=True).get_density()
+                if then == "marginal":
+                    d = d.get_marginal(jnp.arange(D))
+                elif then == "slice":
+                    d = d.slice(jnp.arange(R)[::-1])
+                return d
+            out.append((w, hb, hmu[::-1] if then == "slice" else hmu, hSig))
         elif w == "joint_of_cond" and D >= 2:
             # the joint density produced by a linear conditional p(x2|x1) applied to priors p_r(x1) (layout 1 x R)
             Dx = D // 2
